@@ -33,7 +33,7 @@ Section Facts.
   Notation stepacc := (stepacc gen enc decode life).
   Notation run := (run gen enc decode life).
   Notation loadcache := (loadcache decode life).
-  Notation op_ok := (@op_ok D L P decode).
+  Notation op_ok := (@op_ok D L P enc decode).
 
   (* ---------- ghost history ---------- *)
   Lemma alive_upto (h : list (Z * D)) u u' tau d : alive h u tau d -> u <= u' -> alive h u' tau d.
@@ -146,11 +146,29 @@ Section Facts.
       + eapply outs_ok_mono; [exact Ho|simpl; lia|simpl; auto].
   Qed.
 
+  Lemma Good_regenerate_f (s : state) (out : list stamped) p k :
+    (forall l, decode (firstn k (enc l)) = None \/ firstn k (enc l) = enc l) ->
+    Good (s, out) ->
+    Good (fst (regenerate_f gen enc s p k), (now s, dir s, Served p (gen (dir s)) false) :: out).
+  Proof.
+    intros Hk [Hh [Hf Ho]]. simpl in *. split; [|split]; simpl.
+    - exact Hh.
+    - intros b g l H H0. injection H as <- <-.
+      destruct (Hk (gen (dir s))) as [E|E]; rewrite E in H0; [discriminate|].
+      rewrite roundtrip in H0. injection H0 as <-.
+      simpl. split; [lia|]. split.
+      + exists (dir s). split; [|reflexivity]. now apply alive_now.
+      + exists p, (dir s). now left.
+    - split.
+      + simpl. split; [lia|]. split; [reflexivity|now apply alive_now].
+      + eapply outs_ok_mono; [exact Ho|simpl; lia|simpl; auto].
+  Qed.
+
   Lemma Good_step rep acc o : Good acc -> op_ok o -> Good (stepacc rep acc o).
   Proof.
     destruct acc as [s out]. intros G Hok. pose proof G as [Hh [Hf Ho]]. simpl in Hh, Hf, Ho.
     unfold Cache.stepacc. simpl fst. simpl snd.
-    destruct o as [f|dt|p|q|g]; simpl.
+    destruct o as [f|dt|p|p k|q|g]; simpl.
     - (* Mutate *)
       split; [|split]; simpl.
       + exists (now s), (hist s). split; [reflexivity|simpl; lia].
@@ -181,6 +199,22 @@ Section Facts.
       + exact (Good_regenerate s out p G).
       + destruct rep.
         * exact (Good_regenerate s out p G).
+        * split; [exact Hh|]. split.
+          -- now apply file_ok_cons.
+          -- simpl. split; [|exact Ho]. split; [simpl; lia|exact I].
+    - (* List whose cache write fails after k bytes *)
+      simpl in Hok. unfold Cache.do_list_f. destruct (loadcache s) as [l| |] eqn:Lc.
+      + destruct (loadcache_hit s l Lc) as [b [g [Ef [Fr Dg]]]].
+        destruct (Hf b g l Ef Dg) as [Hb [[d [A B]] [p' [d' W]]]].
+        pose proof (fresh_age _ _ Fr) as Age.
+        split; [exact Hh|]. split.
+        * now apply file_ok_cons.
+        * simpl. split; [|exact Ho]. split; [simpl; lia|]. split.
+          -- exists b, d. repeat split; assumption.
+          -- exists p', d', b. repeat split; assumption.
+      + exact (Good_regenerate_f s out p k Hok G).
+      + destruct rep.
+        * exact (Good_regenerate_f s out p k Hok G).
         * split; [exact Hh|]. split.
           -- now apply file_ok_cons.
           -- simpl. split; [|exact Ho]. split; [simpl; lia|exact I].
@@ -271,8 +305,9 @@ Section Facts.
 
   Lemma repaired_step_no_crash (s : state) (o : op) r : snd (step true s o) = Some r -> forall p, r <> Crashed p.
   Proof.
-    destruct o as [f|dt|p|q|g]; simpl; try discriminate.
-    unfold Cache.do_list. destruct (loadcache s); simpl; intros H q; injection H as <-; discriminate.
+    destruct o as [f|dt|p|p k|q|g]; simpl; try discriminate.
+    - unfold Cache.do_list. destruct (loadcache s); simpl; intros H q; injection H as <-; discriminate.
+    - unfold Cache.do_list_f. destruct (loadcache s); simpl; intros H q; injection H as <-; discriminate.
   Qed.
 
   Lemma repaired_never_crashes ops : forall acc,
@@ -289,13 +324,13 @@ Section Facts.
 
   (* without damage the pinned code never meets an undecodable file *)
   Definition wellformed (s : state) : Prop := forall b g, file s = Some (b, g) -> exists l, g = enc l.
-  Definition no_damage (o : op) : Prop := match o with Damage _ => False | _ => True end.
+  Definition no_damage (o : op) : Prop := match o with Damage _ | ListF _ _ => False | _ => True end.
 
   Lemma pinned_step_wf (s : state) (o : op) :
     wellformed s -> no_damage o ->
     wellformed (fst (step false s o)) /\ forall r, snd (step false s o) = Some r -> forall p, r <> Crashed p.
   Proof.
-    intros W N. destruct o as [f|dt|p|q|g]; simpl in *; try (split; [exact W|discriminate]); [|tauto].
+    intros W N. destruct o as [f|dt|p|p k|q|g]; simpl in *; try (split; [exact W|discriminate]); try tauto.
     unfold Cache.do_list, Cache.loadcache. destruct (file s) as [[b g]|] eqn:Ef.
     - destruct (fresh life (now s) b).
       + destruct (W b g Ef) as [l ->]. rewrite roundtrip. simpl. split.
